@@ -33,7 +33,7 @@ CLAIMED = {
          "M_proof reads proofs only through ProvenEqRaw::proof/equ and get_syn_expr; C07S runs without the b[x := t] rule and without the modify hook; sampling"),
  "C14": ("rw", "7 C14", "seeded LA histories of insertions, raw unions (runs without modify) and rewrite iterations with the simulator's analysis (min size, min depth, constant mod p with modify hook, a bounded height joined with max that grows along cycles); after every operation every live class's datum is recomputed as the join of make over its e-nodes, size equals value-iteration min cost, constants equal the class's model table, equal invocations share one datum",
          "in runs with raw (not model-valid) unions the constant component is excluded (make is not monotone once two constants are joined); sampling"),
- "C15": ("rw", "7 C15", "Runner::run, run_eqsat, bare apply_rewrites loops and a symmetry-growth loop under seeded iteration/node/time limits, a simulated clock (stalled, auto-step per read, jumps inside searchers and between iterations) and a hook failing at a seeded iteration; truth table of the stop reason in the final state (strict for Runner, as coded >= for run_eqsat), one more application after Saturated changes nothing, apply_rewrites == false implies an unchanged independent fingerprint (no use of progress()), iteration bound, report node count",
+ "C15": ("rw", "7 C15", "Runner::run, run_eqsat, bare apply_rewrites loops and a symmetry-growth loop under seeded iteration/node/time limits, a simulated clock (stalled, auto-step per read, jumps inside searchers and between iterations) a hook failing at a seeded iteration and a hook that inserts a further left-side instance at a seeded iteration; truth table of the stop reason in the final state (strict for Runner, as coded >= for run_eqsat), one more application after Saturated changes nothing, apply_rewrites == false implies an unchanged independent fingerprint (no use of progress()), iteration bound, report node count",
          "the clock seam replaces std::time::Instant in guard-on builds; no liveness claim in time, only in iterations; sampling"),
  "C20": ("thr", "7 C20", "2-3 replica threads replay one history step by step under the baton scheduler next to 0-3 noise threads (own e-graphs, symbol interning, allocation); transcripts (handles, class ids, slot names, e-node listing order, match and multi-match lists, rewrite results, dumps, extracted terms, explanations) must be identical among replicas, to a solo replay and, for a sixth of the runs, to a replay in a child process with another interning order; run in the guard-off build (shipped hasher), the guard-on build and the explanations build; an outcome that differs between two executions of the same run is itself a violation",
          "EGraph::dump output (stdout) is not captured; the open known finding on Symbol interning order is matched only for runs with Symbol payloads in the cross-process clause; sampling"),
